@@ -74,3 +74,10 @@ def _names(t):
 def check(cond, clause, msg=""):
     if not cond:
         raise Violation(clause, msg() if callable(msg) else msg)
+
+
+def sized_lists(elements, lo, hi):
+    """Lists whose length is drawn uniformly from lo..hi first (Hypothesis' own lists() average only ~min_size+5
+    elements whatever max_size is, which leaves long histories untested)."""
+    from hypothesis import strategies as st
+    return st.integers(lo, hi).flatmap(lambda n: st.lists(elements, min_size=n, max_size=n))
